@@ -316,3 +316,32 @@ func (r *hashProbeReader) Read(_ context.Context) (*Row, error) {
 	r.pos++
 	return row, nil
 }
+
+// hashJoinCondStable reports whether every AND-conjunct of the (unreduced)
+// join condition is either a plain column-to-column equality (which becomes
+// an equi-pair, re-read for every outer row) or reads inner columns only
+// (a residual that is the same for every outer row).
+func hashJoinCondStable(cond ValueExp, innerAlias string) bool {
+	if be, ok := cond.(*BinBoolExp); ok && be.op == And {
+		return hashJoinCondStable(be.left, innerAlias) && hashJoinCondStable(be.right, innerAlias)
+	}
+
+	if cmp, ok := cond.(*CmpBoolExp); ok && cmp.op == EQ {
+		_, lsel := cmp.left.(*ColSelector)
+		_, rsel := cmp.right.(*ColSelector)
+		if lsel && rsel {
+			return true
+		}
+	}
+
+	tables, hasUnqualified, safe := collectColTables(cond)
+	if !safe || hasUnqualified {
+		return false
+	}
+	for t := range tables {
+		if t != innerAlias {
+			return false
+		}
+	}
+	return true
+}
